@@ -43,7 +43,7 @@ Q(q)             == [op |-> "find", q |-> q]
 M(v, uri, local) == [op |-> "match", v |-> v, qn |-> <<uri, local>>]
 
 \* API operations and their footprints
-ApiNames == {"serA", "serB", "parseA", "parseB", "parseXsi", "parseNoClass", "parseUnknown",
+ApiNames == {"serA", "serB", "parseA", "parseB", "parseXsi", "parseXsiWrong", "parseNoClass", "parseUnknown",
              "parseBroken", "serOther", "decNoClass", "import", "reset",
              "parseW1ok", "parseW1bad", "parseW1other", "parseW2same", "parseW2other"}
 Footprint(name) ==
@@ -52,6 +52,9 @@ Footprint(name) ==
     [] name = "parseA"       -> << F(1, NONE, NONE), F(3, "urn:a", NONE) >>
     [] name = "parseB"       -> << F(2, NONE, NONE), F(3, "urn:b", NONE) >>
     [] name = "parseXsi"     -> << F(4, NONE, "{urn:a}Derived") >>
+    \* the same xsi:type under a declared class it does NOT derive from: no substitution, and nothing
+    \* about that verdict may stick to the qname alone
+    [] name = "parseXsiWrong" -> << F(6, NONE, "{urn:a}Derived") >>
     [] name = "parseNoClass" -> << Q("{urn:b}Other") >>
     [] name = "parseUnknown" -> << Q("{urn:x}Unknown") >>
     [] name = "parseBroken"  -> << B(7, NONE) >>
